@@ -6,13 +6,28 @@ Import ListNotations.
 From Rustun Require Import Base.Tlv Crypto.Sha256 Crypto.Sha1Md5 Codec.AttrValue.
 Open Scope N_scope.
 
-Definition st_key (password:bytes) : vres bytes := av_precis password.
+(* the OpaqueString profile (RFC 8265 4.2) on ASCII plus the non-ASCII space characters: the Additional Mapping Rule maps
+   every non-ASCII space (Unicode category Zs: U+00A0, U+1680, U+2000..U+200A, U+202F, U+205F, U+3000) to U+0020; NFC
+   leaves the result (ASCII) alone; then the ASCII rules of av_precis (non-empty, no control characters). Any other
+   non-ASCII code point needs the Unicode tables: VUnmodelled. *)
+Definition is_zs (cp:N) : bool :=
+  (cp =? 0xA0) || (cp =? 0x1680) || ((0x2000 <=? cp) && (cp <=? 0x200A)) || (cp =? 0x202F) || (cp =? 0x205F) || (cp =? 0x3000).
+Definition precis_sp (s:bytes) : vres bytes :=
+  match av_utf8 s with
+  | None => VErr                                            (* not reachable from Rust: a &str is valid UTF-8 *)
+  | Some cps =>
+      if forallb (fun c => (c <? 0x80) || is_zs c) cps
+      then av_precis (map (fun c => if is_zs c then 0x20 else c) cps)
+      else VUnmodelled
+  end.
+
+Definition st_key (password:bytes) : vres bytes := precis_sp password.
 
 (* alg: 1 = MD5, 2 = SHA-256, anything else: "Invalid algorithm" *)
 Definition lt_key (user realm password:bytes) (alg:N) : vres bytes :=
-  match av_precis realm with
+  match precis_sp realm with
   | VOk r =>
-      match av_precis password with
+      match precis_sp password with
       | VOk p =>
           let s := user ++ [58] ++ r ++ [58] ++ p in
           if alg =? 1 then VOk (md5 s) else if alg =? 2 then VOk (sha256 s) else VErr
@@ -24,4 +39,8 @@ Definition lt_key (user realm password:bytes) (alg:N) : vres bytes :=
 (* the stun-rs documentation example and RFC 5769 2.4 (user / realm / pass over ASCII) *)
 Example lt_key_doc : lt_key [117;115;101;114] [114;101;97;108;109] [112;97;115;115] 1
   = VOk [0x84;0x93;0xFB;0xC5;0x3B;0xA5;0x82;0xFB;0x4C;0x04;0x4C;0x45;0x6B;0xDC;0x40;0xEB].
+Proof. vm_compute. reflexivity. Qed.
+
+(* a password typed with a no-break space and an ideographic space is the same key as with plain spaces *)
+Example st_key_spaces : st_key [112; 194; 160; 119; 227; 128; 128; 120] = VOk [112; 32; 119; 32; 120].
 Proof. vm_compute. reflexivity. Qed.
